@@ -204,6 +204,17 @@ class SelWorld:
             self.links[l] = {("S" if k.endswith("S") else "R"): (link, 1)}
         self._check_links(l)
 
+    def _LateDial(self, l, y):
+        """an outsider dials a party that is done: its listener must be closed by now (connection refused)"""
+        k = self.kinds[l]
+        port = self.portS if k.endswith("S") else self.portR
+        c = reactor.connectTCP("127.0.0.1", port, StrangerFactory())
+        link = reactor.complete(c)
+        if link is not None:
+            # accepted after all: from here on it is one more connection of that party, and is judged as such
+            self.strangers[l] = link
+            self.links[l] = {("S" if k.endswith("S") else "R"): (link, 1)}
+
     def _check_links(self, l):
         for p, e in list(self.links.get(l, {}).items()):
             if e[0] is None:
